@@ -42,9 +42,14 @@ struct SingleCase {
     bool has_prefix = false;
     Vec2 prefix_from = {0, 0};
     Spec spec;
+    double tol_abs = 0;        // > 0: absolute tolerance = feature scale x relative tolerance (scaled sub-search)
+    std::string tol_label;
+    double feature_scale = 1;
+    double tol() const { return tol_abs > 0 ? tol_abs : TOLS[toli]; }
 };
 static std::string single_json(const SingleCase& sc) {
-    JFields f = {{"start", "[" + jnum(sc.start.x) + "," + jnum(sc.start.y) + "]"}, {"tolerance", jnum(TOLS[sc.toli])}};
+    JFields f = {{"start", "[" + jnum(sc.start.x) + "," + jnum(sc.start.y) + "]"}, {"tolerance", jnum(sc.tol())}};
+    if (sc.feature_scale != 1) f.push_back({"feature_scale", jnum(sc.feature_scale)});
     if (sc.has_prefix) f.push_back({"preceding_segment_from", "[" + jnum(sc.prefix_from.x) + "," + jnum(sc.prefix_from.y) + "]"});
     f.push_back({"section", sc.spec.json()});
     return jobj(f);
@@ -116,8 +121,9 @@ static bool is_nontrivial(const Spec& s, const Model& m, double tol) {
 }
 static void run_single(const SingleCase& sc, const std::string& subname, int64_t idx, bool verbose) {
     CaseCtx cx;
-    cx.tol = TOLS[sc.toli];
-    cx.tol_s = TOL_S[sc.toli];
+    cx.tol = sc.tol();
+    cx.tol_s = sc.tol_abs > 0 ? sc.tol_label : TOL_S[sc.toli];
+    cx.scale_floor = sc.feature_scale < 1 ? sc.feature_scale : 1;
     cx.verbose = verbose;
     cx.case_json = single_json(sc);
     cx.replay = "sub=" + subname + " idx=" + std::to_string(idx);
@@ -310,6 +316,102 @@ static void register_sections(bool thorough) {
                            s.cons.push_back(c);
                            s.angles.push_back(ANG[i]);
                        }
+                       return true;
+                   });
+}
+
+// ------------------------------------------------------------------ (A') absolute scale of the feature
+// The property does not fix the absolute size of a section: selected control polygons (every
+// non-doubling-back one with coincident control points, a thin selection of the ordinary and of
+// the cusp/looping ones, all quadratics, parametric, interpolation) are re-run at feature scales
+// {1e-2, 1, 1e2} (thorough: 1e-3 too) with the tolerance relative to the feature.
+struct ScaledBase { Vec2 start; Spec spec; };
+static std::vector<ScaledBase> SBASE;
+static void init_scaled_bases() {
+    auto P = [](const Vec2& v) { return P2{(LD)v.x, (LD)v.y}; };
+    int64_t ord = 0, loopc = 0;
+    for (int si = 0; si < 2; si++) {
+        Vec2 st = STARTS[si];
+        // quadratics: all 25^2
+        for (auto& a : L25)
+            for (auto& b : L25) {
+                ScaledBase sb; sb.start = st; sb.spec.kind = QUAD; sb.spec.pts = {a, b};
+                std::vector<P2> c = {P(st), P(a), P(b)};
+                bool coincident = (a == st) != (b == a) || (a == st && !(b == a));
+                if (span_lt_quarter(c) || coincident || (loopc++ % 7 == 0)) SBASE.push_back(sb);
+            }
+        // cubics
+        for (auto& a : L25)
+            for (auto& b : L25)
+                for (auto& c3 : L25) {
+                    std::vector<P2> c = {P(st), P(a), P(b), P(c3)};
+                    bool zero_edge = a == st || b == a || c3 == b;
+                    bool all_same = a == st && b == a && c3 == b;
+                    bool elig = span_lt_quarter(c) && !all_same;
+                    bool take = false;
+                    if (elig && zero_edge) take = true;                       // coincident control points, deviation demanded
+                    else if (elig) take = (ord++ % 8 == 0);                    // ordinary: thin
+                    else take = (loopc++ % 197 == 0);                          // cusp / looping: thin
+                    if (!take) continue;
+                    ScaledBase sb; sb.start = st; sb.spec.kind = CUB; sb.spec.pts = {a, b, c3};
+                    SBASE.push_back(sb);
+                }
+        // the seeded-change demo shapes and relatives (not on the lattice)
+        for (int k = 0; k < 4; k++) {
+            ScaledBase sb; sb.start = st; sb.spec.kind = CUB;
+            Vec2 o = st;
+            if (k == 0) sb.spec.pts = {o, o + Vec2{1, 0}, o + Vec2{1.2, 1}};
+            if (k == 1) sb.spec.pts = {o + Vec2{1, 0}, o + Vec2{1, 0}, o + Vec2{1.2, 1}};
+            if (k == 2) sb.spec.pts = {o + Vec2{1, 0}, o + Vec2{1.2, 1}, o + Vec2{1.2, 1}};
+            if (k == 3) sb.spec.pts = {o, o + Vec2{1, 0.5}, o + Vec2{1, 0.5}};
+            SBASE.push_back(sb);
+        }
+        // bezier with 5 control points: coincident runs
+        for (int k = 0; k < 3; k++) {
+            ScaledBase sb; sb.start = st; sb.spec.kind = BEZ;
+            Vec2 o = st;
+            if (k == 0) sb.spec.pts = {o, o + Vec2{1, 0}, o + Vec2{2, 1}, o + Vec2{3, 1}, o + Vec2{4, 2}};
+            if (k == 1) sb.spec.pts = {o + Vec2{1, 0}, o + Vec2{2, 0}, o + Vec2{2, 0}, o + Vec2{3, 1}, o + Vec2{3, 1}};
+            if (k == 2) sb.spec.pts = {o + Vec2{1, 1}, o + Vec2{1, 1}, o + Vec2{1, 1}, o + Vec2{2, 1}, o + Vec2{3, 2}};
+            SBASE.push_back(sb);
+        }
+        for (int fn = 0; fn < 3; fn++) { ScaledBase sb; sb.start = st; sb.spec.kind = PAR; sb.spec.fn = fn; sb.spec.rel = fn != 1; SBASE.push_back(sb); }
+        static const std::vector<std::vector<Vec2>> KN = {{{2, 1}}, {{2, 0}, {2, 2}}, {{1, 1}, {2, -1}}};
+        for (auto& kn : KN)
+            for (int cp = 0; cp < 3; cp++) {
+                ScaledBase sb; sb.start = st; sb.spec.kind = INT;
+                for (auto& q : kn) sb.spec.pts.push_back(st + q + Vec2{2, 2});
+                size_t nk = kn.size() + 1;
+                static const double ANG[3] = {0.5, -0.8, 2.0};
+                for (size_t i = 0; i < nk; i++) { sb.spec.cons.push_back(cp == 1 ? i == 0 : cp == 2); sb.spec.angles.push_back(ANG[i]); }
+                SBASE.push_back(sb);
+            }
+    }
+}
+static void register_scaled(bool thorough) {
+    init_scaled_bases();
+    static std::vector<double> SC = {1e-2, 1, 1e2};
+    static std::vector<int> SCI = {1, 0, 2};            // index into PAR_SCALES
+    static std::vector<std::string> SCS = {"1e-2", "1", "1e2"};
+    static std::vector<double> REL = {1e-1, 1e-2, 1e-4, 1e-6};
+    static std::vector<std::string> RELS = {"1e-1", "1e-2", "1e-4", "1e-6"};
+    if (thorough) { SC.push_back(1e-3); SCI.push_back(3); SCS.push_back("1e-3"); REL = {1e-1, 1e-2, 1e-3, 1e-4, 1e-6}; RELS = {"1e-1", "1e-2", "1e-3", "1e-4", "1e-6"}; }
+    add_single_sub("scaled", fmt("feature scale {1e-2,1,1e2%s} x tolerance = scale x {%s} x %zu selected sections (quick: at relative tolerance 1e-6 every 3rd lattice member; all non-doubling-back lattice cubics with coincident control points, every 8th ordinary and every 197th cusp/looping cubic, quadratics, off-lattice coincident-control cubics, bezier with coincident runs, parametric, interpolation; both starts)",
+                                 thorough ? ",1e-3" : "", thorough ? "1e-1,1e-2,1e-3,1e-4,1e-6" : "1e-1,1e-2,1e-4,1e-6", SBASE.size()),
+                   {(int64_t)REL.size(), (int64_t)SC.size(), (int64_t)SBASE.size()}, 40,
+                   [thorough](const std::vector<int>& d, SingleCase& sc) {
+                       const ScaledBase& b = SBASE[d[2]];
+                       double f = SC[d[1]];
+                       // quick tier: at the finest relative tolerance only every 3rd quadratic / lattice cubic
+                       if (!thorough && REL[d[0]] < 1e-5 && (b.spec.kind == QUAD || b.spec.kind == CUB) && d[2] % 3 != 0 &&
+                           b.spec.pts.back().x == floor(b.spec.pts.back().x) && b.spec.pts.back().y == floor(b.spec.pts.back().y)) return false;
+                       sc.start = b.start * f;
+                       sc.spec = b.spec;
+                       for (auto& q : sc.spec.pts) q = q * f;
+                       sc.spec.pscale = SCI[d[1]];
+                       sc.feature_scale = f;
+                       sc.tol_abs = f * REL[d[0]];
+                       sc.tol_label = SCS[d[1]] + "*" + RELS[d[0]];
                        return true;
                    });
 }
@@ -548,6 +650,7 @@ int main(int argc, char** argv) {
     register_primitives(run.thorough());
     register_histories(run.thorough());
     register_array_pairs();
+    register_scaled(run.thorough());
     std::stable_sort(SUBS.begin(), SUBS.end(), [](const Sub& a, const Sub& b) { return a.n < b.n; });
 
     if (run.replaying()) {
